@@ -413,6 +413,187 @@ def run_history(case) -> CaseResult:
         shutil.rmtree(tmp, ignore_errors=True)
 
 
+def run_refused(case) -> CaseResult:
+    """Channels that end BEFORE a session starts (request refused, channel
+    closed from inside the request callback, channel refused at open, client
+    gives up): with the connection still up, every awaited call must be done
+    at quiescence, both session objects must have had their close
+    notification and both channel tables must be empty"""
+
+    log: List[Any] = []
+    harness = memwire.Harness()
+    mode = case['server']
+    count = itertools.count()
+    ssessions: List[Any] = []
+
+    class SSess(asyncssh.SSHServerSession):
+        def __init__(self):
+            self.name = ('ssess', next(count))
+            ssessions.append(self)
+
+        def connection_made(self, chan):
+            self.chan = chan
+            log.append((self.name, 'connection_made'))
+
+        def connection_lost(self, exc):
+            log.append((self.name, 'connection_lost',
+                        type(exc).__name__ if exc else None))
+
+        def _decide(self):
+            if mode == 'refuse':
+                return False
+            if mode == 'close-in-request':
+                self.chan.close()
+                return False
+            if mode == 'abort-in-request':
+                self.chan.abort()
+                return False
+            if mode == 'exit-in-request':
+                self.chan.exit(3)
+                return True
+            return True
+
+        def pty_requested(self, *args):
+            return mode != 'refuse-pty'
+
+        def shell_requested(self):
+            return self._decide()
+
+        def exec_requested(self, command):
+            return self._decide()
+
+        def subsystem_requested(self, subsystem):
+            return self._decide()
+
+        def session_started(self):
+            log.append((self.name, 'session_started'))
+            if mode == 'close-at-start':
+                self.chan.close()
+            elif mode in ('accept', 'refuse-pty'):
+                # a command that finishes at once
+                self.chan.exit(0)
+
+    class Server(Owner, memwire.PwServer):
+        def __init__(self):
+            Owner.__init__(self, log, 'S')
+
+        def session_requested(self):
+            if mode == 'refuse-open':
+                return False
+            return SSess()
+
+    chunks = case['chunks']
+    chunker = itertools.cycle(chunks) if chunks else None
+    pair = Pair({'server_factory': Server, 'encoding': None},
+                {'client_factory': lambda: _Client(log)}, h=harness)
+    h = harness
+    tasks: List[Any] = []
+
+    try:
+        pair.handshake(chunker)
+        n = 0
+
+        for call in case['calls']:
+            if call == 'session-exec':
+                i = n
+                t = h.spawn(pair.c.create_session(
+                    lambda i=i: LogSess(log, ('csess', i)), 'cmd'))
+            elif call == 'session-shell':
+                i = n
+                t = h.spawn(pair.c.create_session(
+                    lambda i=i: LogSess(log, ('csess', i))))
+            elif call == 'session-pty':
+                i = n
+                t = h.spawn(pair.c.create_session(
+                    lambda i=i: LogSess(log, ('csess', i)), 'cmd',
+                    term_type='xterm'))
+            elif call == 'process':
+                t = h.spawn(pair.c.create_process('cmd'))
+            elif call == 'run':
+                t = h.spawn(pair.c.run('cmd'))
+            else:
+                t = h.spawn(pair.c.start_sftp_client())
+            n += 1
+            tasks.append((call, t))
+
+            if case['step']:
+                for _ in range(case['step']):
+                    for side in ('c', 's'):
+                        h.deliver(side, next(chunker) if chunker else None)
+                    h.settle()
+
+        h.pump(chunker)
+
+        # processes that were started normally: close them from the client
+        for call, t in tasks:
+            if t.done() and not t.exception():
+                res = t.result()
+                obj = res[0] if isinstance(res, tuple) else res
+                if hasattr(obj, 'close') and not hasattr(obj, 'exit_status'):
+                    h.call(obj.close)
+                elif hasattr(obj, 'close'):
+                    h.call(obj.close)
+
+        h.pump(chunker)
+        hung = sorted({call for call, t in tasks if not t.done()})
+
+        if hung:
+            raise Violation('hung-waiter', '%s still pending at quiescence '
+                            'although the server %s (connection still up)' %
+                            (hung, mode), 'hung-before-session:' + hung[0])
+
+        for name, conn in (('client', pair.c), ('server', pair.s)):
+            # pylint: disable=protected-access
+            if conn._channels:
+                raise Violation(
+                    'channel-left-registered', '%s connection still has '
+                    'channels %r after every channel ended (server mode %s)'
+                    % (name, list(conn._channels), mode),
+                    'channel-left-open-connection:' + name)
+
+        made = {e[0] for e in log if e[1] == 'connection_made' and
+                e[0] not in ('S', 'C')}
+        lost = {e[0] for e in log if e[1] == 'connection_lost'}
+
+        if made - lost:
+            raise Violation('close-missing', 'sessions %r never got '
+                            'connection_lost although their channels ended' %
+                            sorted(map(str, made - lost)),
+                            'close-missing-open-connection')
+
+        h.call(pair.c.close)
+        h.pump(chunker)
+        check_log(log)
+
+        if h.loop_errors:
+            raise Violation('loop-error', repr(h.loop_errors[0])[:400],
+                            'loop-error')
+
+        return CaseResult(['mode:' + mode] + ['call:' + c
+                                              for c in case['calls']], True)
+    finally:
+        pair.close()
+
+
+def refused_cases(tier: str):
+    modes = ['refuse', 'close-in-request', 'abort-in-request',
+             'exit-in-request', 'refuse-pty', 'close-at-start',
+             'refuse-open', 'accept']
+    calls = ['session-exec', 'session-shell', 'session-pty', 'process',
+             'run', 'sftp']
+    for mode in modes:
+        for c1 in calls:
+            for c2 in (None, 'session-exec', 'run'):
+                for step in (0, 1, 2, 3, 5):
+                    for chunks in ([], [1], [7, 300]):
+                        if chunks and tier != 'thorough' and step not in (0,
+                                                                          2):
+                            continue
+                        yield {'server': mode, 'step': step,
+                               'chunks': chunks,
+                               'calls': [c1] + ([c2] if c2 else [])}
+
+
 class _Client(Owner, asyncssh.SSHClient):
     def __init__(self, log):
         Owner.__init__(self, log, 'C')
@@ -504,6 +685,8 @@ FAMILIES = [
                       ('read', 'wait', 'drain', 'proc', 'sftp-read',
                        'sftp-stat', 'forward', 'run', 'wait_closed')] +
                      ['cut-mid-record']},
+           case_timeout=120, timeout_is_violation=True),
+    Family('refused', run_refused, enumerate=refused_cases, exhaustive=True,
            case_timeout=120, timeout_is_violation=True),
     Family('cuts', run_history, enumerate=cut_cases, exhaustive=True,
            case_timeout=120, timeout_is_violation=True),
